@@ -1,6 +1,7 @@
 import LenaModel.Model.C08
 import LenaModel.Lemmas.C08
 import LenaModel.Lemmas.C08Fmt
+import LenaModel.Lemmas.C08Str
 /-! # C08 — property theorems (context addressing, formatting and update elements)
 
 Vocabulary: `getPath v p` is the item a key path `p` names (`none`: absent, or a scalar on the way);
@@ -759,5 +760,420 @@ theorem format_init_total (s : Option String) :
     · exact Or.inr (Or.inl h)
 
 example : formatInit (some "}}{{") = .error .lenaValueError := by decide
+
+/-! ## 7. `to_string` is canonical -/
+
+/-- **to_string_perm** — "equal dictionaries give equal strings whatever their key order": dictionaries
+that are equal in the sense of Python (`DictEq`: the same keys with equal values, at every depth,
+in any insertion order) have the same token sequence -/
+theorem to_string_perm (a b : Val) (wa : a.WF) (wb : b.WF) (h : DictEq a b) : toTokens a = toTokens b := by
+  rw [toTokens_eq_raw, toTokens_eq_raw, canon_eq_of_dictEq a b h wa wb]
+
+/-- **to_string_inj** — "different ones give different strings": dictionaries with the same token
+sequence are equal (the brace/comma/colon structure is unambiguous; that `json.dumps` spells different
+keys and scalars differently is assumed, see `Tok`) -/
+theorem to_string_inj (a b : Val) (h : toTokens a = toTokens b) : DictEq a b := by
+  rw [toTokens_eq_raw, toTokens_eq_raw] at h
+  exact dictEq_of_canon_eq a b (rawTokens_injective _ _ h)
+
+/-- `to_string` is canonical: same string exactly for equal dictionaries -/
+theorem to_string_canonical (a b : Val) (wa : a.WF) (wb : b.WF) : toTokens a = toTokens b ↔ DictEq a b :=
+  ⟨to_string_inj a b, to_string_perm a b wa wb⟩
+
+theorem lookup_eq_none_iff : ∀ (l : Entries) (k : String), lookup l k = none ↔ ∀ e ∈ l, e.1 ≠ k
+  | [], k => by simp
+  | (k0, v0) :: r, k => by
+    rw [lookup_cons]
+    by_cases h : k0 = k
+    · simp [h]
+    · simp [h, lookup_eq_none_iff r k]
+
+theorem entriesWF_iff : ∀ l : Entries, EntriesWF l ↔ l.Pairwise (fun a b => a.1 ≠ b.1) ∧ ∀ e ∈ l, e.2.WF
+  | [] => by simp [EntriesWF]
+  | (k, v) :: r => by
+    simp only [EntriesWF, List.pairwise_cons, List.mem_cons, forall_eq_or_imp, lookup_eq_none_iff, entriesWF_iff r]
+    constructor
+    · rintro ⟨h1, h2, h3, h4⟩
+      exact ⟨⟨fun e he => Ne.symm (h1 e he), h3⟩, h2, h4⟩
+    · rintro ⟨⟨h1, h3⟩, h2, h4⟩
+      exact ⟨fun e he => Ne.symm (h1 e he), h2, h3, h4⟩
+
+theorem lookup_perm {l1 l2 : Entries} (h : l1.Perm l2) : l1.Pairwise (fun a b => a.1 ≠ b.1) →
+    ∀ k, lookup l1 k = lookup l2 k := by
+  induction h with
+  | nil => intro _ _; rfl
+  | cons x _ ih =>
+    intro hp k
+    obtain ⟨k0, v0⟩ := x
+    simp only [lookup_cons]
+    rw [ih (List.pairwise_cons.1 hp).2 k]
+  | swap x y l =>
+    intro hp k
+    obtain ⟨kx, vx⟩ := x
+    obtain ⟨ky, vy⟩ := y
+    have hne : ky ≠ kx := by
+      have := (List.pairwise_cons.1 hp).1 (kx, vx) (by simp)
+      exact this
+    simp only [lookup_cons]
+    by_cases h1 : ky = k
+    · have : kx ≠ k := fun e => hne (by rw [h1, e])
+      simp [h1, this]
+    · simp [h1]
+  | trans h1 _ ih1 ih2 =>
+    intro hp k
+    have hp2 := (h1.pairwise_iff (fun {a b} (hab : a.1 ≠ b.1) => Ne.symm hab)).1 hp
+    rw [ih1 hp k, ih2 hp2 k]
+
+theorem dictEq_dict_iff (ea eb : Entries) : DictEq (.dict ea) (.dict eb) ↔
+    (∀ k, (lookup ea k).isSome = (lookup eb k).isSome) ∧
+    (∀ k v w, lookup ea k = some v → lookup eb k = some w → DictEq v w) := by
+  constructor
+  · intro h; cases h with | dict _ _ h1 h2 => exact ⟨h1, h2⟩
+  · intro h; exact .dict ea eb h.1 h.2
+
+mutual
+/-- `DictEq` is Python's (type-strict) `==`: the executable comparison `pyEq`, which the correspondence
+check compares with the equality of the real Python values, decides it -/
+theorem pyEq_iff : ∀ (a b : Val), a.WF → (pyEq a b = true ↔ DictEq a b)
+  | .leaf x, .leaf y, _ => by
+    simp only [pyEq, beq_iff_eq]
+    constructor
+    · intro h; rw [h]; exact .leaf y
+    · intro h; cases h; rfl
+  | .leaf x, .dict eb, _ => by
+    simp only [pyEq, Bool.false_eq_true, false_iff]; intro h; cases h
+  | .dict ea, .leaf y, _ => by
+    simp only [pyEq, Bool.false_eq_true, false_iff]; intro h; cases h
+  | .dict ea, .dict eb, wa => by
+    simp only [Val.WF] at wa
+    rw [dictEq_dict_iff]
+    simp only [pyEq, Bool.and_eq_true, List.all_eq_true]
+    rw [subEq_iff ea eb wa]
+    constructor
+    · rintro ⟨h1, h2⟩
+      refine ⟨?_, ?_⟩
+      · intro k
+        cases ha : lookup ea k with
+        | some v =>
+          obtain ⟨w, hw, _⟩ := h1 k v ha
+          simp [hw]
+        | none =>
+          cases hb : lookup eb k with
+          | none => rfl
+          | some w =>
+            have := h2 (k, w) (mem_of_lookup eb k w hb)
+            simp [ha] at this
+      · intro k v w ha hb
+        obtain ⟨w', hw', hd⟩ := h1 k v ha
+        rw [hb] at hw'; injection hw' with hw'; subst hw'
+        exact hd
+    · rintro ⟨h1, h2⟩
+      refine ⟨?_, ?_⟩
+      · intro k v ha
+        have := h1 k
+        rw [ha] at this
+        cases hb : lookup eb k with
+        | none => rw [hb] at this; simp at this
+        | some w => exact ⟨w, rfl, h2 k v w ha hb⟩
+      · intro e he
+        have := lookup_isSome_of_mem eb e.1 e.2 he
+        rw [← h1 e.1] at this
+        exact this
+theorem subEq_iff : ∀ (ea eb : Entries), EntriesWF ea →
+    (subEq ea eb = true ↔ ∀ k v, lookup ea k = some v → ∃ w, lookup eb k = some w ∧ DictEq v w)
+  | [], eb, _ => by simp [subEq]
+  | (k0, v0) :: r, eb, wa => by
+    simp only [EntriesWF] at wa
+    simp only [subEq, Bool.and_eq_true]
+    rw [subEq_iff r eb wa.2.2]
+    constructor
+    · rintro ⟨h1, h2⟩ k v hl
+      rw [lookup_cons] at hl
+      by_cases hk : k0 = k
+      · simp only [hk, if_true, Option.some.injEq] at hl
+        subst hl; subst hk
+        cases hb : lookup eb k0 with
+        | none => rw [hb] at h1; simp at h1
+        | some w =>
+          rw [hb] at h1
+          exact ⟨w, rfl, (pyEq_iff v0 w wa.2.1).1 h1⟩
+      · simp only [hk, if_false] at hl
+        exact h2 k v hl
+    · intro h
+      constructor
+      · obtain ⟨w, hw, hd⟩ := h k0 v0 (by simp [lookup])
+        rw [hw]
+        exact (pyEq_iff v0 w wa.2.1).2 hd
+      · intro k v hl
+        apply h k v
+        rw [lookup_cons]
+        by_cases hk : k0 = k
+        · subst hk; rw [wa.1] at hl; simp at hl
+        · simp [hk, hl]
+end
+
+/-- in particular: any reordering of the items of a dictionary gives the same string -/
+theorem to_string_reorder (ea eb : Entries) (h : ea.Perm eb) (wa : EntriesWF ea) :
+    toTokens (.dict ea) = toTokens (.dict eb) := by
+  have hwa := (entriesWF_iff ea).1 wa
+  have wb : EntriesWF eb := by
+    rw [entriesWF_iff]
+    refine ⟨(h.pairwise_iff (fun {a b} (hab : a.1 ≠ b.1) => Ne.symm hab)).1 hwa.1, ?_⟩
+    intro e he
+    exact hwa.2 e (h.mem_iff.2 he)
+  apply to_string_perm (.dict ea) (.dict eb) (by simpa [Val.WF] using wa) (by simpa [Val.WF] using wb)
+  have hl := lookup_perm h hwa.1
+  refine .dict ea eb (fun k => by rw [hl k]) ?_
+  intro k v w h1 h2
+  rw [hl k, h2] at h1
+  injection h1 with h1
+  subst h1
+  exact dictEq_of_canon_eq _ _ rfl
+
+example : toTokens (.dict [("b", .dict [("z", .leaf (.bool true)), ("c", .leaf (.int 3))]), ("a", .leaf (.int 1))]) =
+    toTokens (.dict [("a", .leaf (.int 1)), ("b", .dict [("c", .leaf (.int 3)), ("z", .leaf (.bool true))])]) := by
+  decide
+
+example : toStringV (.dict [("b", .dict [("z", .leaf (.bool true)), ("c", .leaf (.int 3))]), ("a", .leaf (.int 1))]) =
+    "{\"a\":1,\"b\":{\"c\":3,\"z\":true}}" := by decide
+
+/-! ## 8. The elements keep contexts well-formed (no key twice), so the theorems above apply to their
+results again -/
+
+theorem setKey_wf : ∀ (d : Entries) (k : String) (v : Val), EntriesWF d → v.WF → EntriesWF (setKey d k v)
+  | [], k, v, _, hv => by simp [setKey, EntriesWF, hv]
+  | (k0, w) :: r, k, v, hw, hv => by
+    simp only [EntriesWF] at hw
+    simp only [setKey]
+    split
+    · rename_i hk
+      subst hk
+      exact ⟨hw.1, hv, hw.2.2⟩
+    · rename_i hk
+      refine ⟨?_, hw.2.1, setKey_wf r k v hw.2.2 hv⟩
+      rw [lookup_setKey_other _ _ _ _ hk]; exact hw.1
+
+theorem eraseKey_wf : ∀ (d : Entries) (k : String), EntriesWF d → EntriesWF (eraseKey d k)
+  | [], _, _ => trivial
+  | (k0, w) :: r, k, hw => by
+    simp only [EntriesWF] at hw
+    simp only [eraseKey]
+    split
+    · exact hw.2.2
+    · rename_i hk
+      refine ⟨?_, hw.2.1, eraseKey_wf r k hw.2.2⟩
+      rw [lookup_eraseKey_other _ _ _ hk]; exact hw.1
+
+mutual
+theorem updRec_wf : ∀ (o d : Entries), EntriesWF d → EntriesWF o → EntriesWF (updRec d o)
+  | [], d, hd, _ => by rw [updRec_nil]; exact hd
+  | (k, v) :: r, d, hd, ho => by
+    simp only [EntriesWF] at ho
+    rw [updRec_cons]
+    refine updRec_wf r _ (setKey_wf d k _ hd ?_) ho.2.2
+    exact updItem_wf v (lookup d k) (fun c hc => lookup_wf_val d k c hd hc) ho.2.1
+theorem updItem_wf : ∀ (v : Val) (cur : Option Val), (∀ c, cur = some c → c.WF) → v.WF → (updItem cur v).WF
+  | .leaf a, cur, _, _ => by simp [updItem, Val.WF]
+  | .dict o, cur, hc, hv => by
+    simp only [Val.WF] at hv
+    cases cur with
+    | none => simpa [updItem, Val.WF] using hv
+    | some c =>
+      cases c with
+      | leaf a =>
+        simp only [updItem, Val.WF]
+        exact updRec_wf o [] trivial hv
+      | dict dk =>
+        simp only [updItem, Val.WF]
+        have := hc (.dict dk) rfl
+        simp only [Val.WF] at this
+        exact updRec_wf o dk this hv
+end
+
+theorem subDict_wf (d : Entries) (k : String) (hd : EntriesWF d) : EntriesWF (subDict d k) := by
+  unfold subDict
+  cases h : lookup d k with
+  | none => trivial
+  | some w =>
+    cases w with
+    | leaf a => trivial
+    | dict e => simpa [Val.WF] using lookup_wf_val d k _ hd h
+
+theorem ucSet_wf (rec : Bool) (u : Val) (hu : u.WF) : ∀ (p : List String) (d : Entries), EntriesWF d →
+    EntriesWF (ucSet rec d p u)
+  | [], d, hd => by simpa [ucSet] using hd
+  | [k], d, hd => by
+    rw [ucSet_single]
+    apply setKey_wf d k _ hd
+    cases rec
+    · simpa using hu
+    · simpa using updItem_wf u (lookup d k) (fun c hc => lookup_wf_val d k c hd hc) hu
+  | k :: k' :: r, d, hd => by
+    rw [ucSet_cons2]
+    apply setKey_wf d k _ hd
+    simpa [Val.WF] using ucSet_wf rec u hu (k' :: r) (subDict d k) (subDict_wf d k hd)
+
+theorem delPath_wf : ∀ (p : List String) (d : Entries), EntriesWF d → EntriesWF (delPath d p)
+  | [], d, hd => by simpa [delPath] using hd
+  | [k], d, hd => by simpa [delPath] using eraseKey_wf d k hd
+  | k :: k' :: r, d, hd => by
+    rw [delPath_cons2]
+    cases h : lookup d k with
+    | none => exact hd
+    | some w =>
+      cases w with
+      | leaf a => exact hd
+      | dict e =>
+        simp only
+        apply setKey_wf d k _ hd
+        have := lookup_wf_val d k _ hd h
+        simp only [Val.WF] at this ⊢
+        exact delPath_wf (k' :: r) e this
+
+theorem getPath_wf : ∀ (p : List String) (v w : Val), v.WF → getPath v p = some w → w.WF
+  | [], v, w, hv, h => by simp at h; subst h; exact hv
+  | k :: p, .leaf a, w, _, h => by simp at h
+  | k :: p, .dict es, w, hv, h => by
+    rw [getPath_dict_cons] at h
+    cases hl : lookup es k with
+    | none => rw [hl] at h; simp at h
+    | some x =>
+      rw [hl] at h
+      simp only [Option.bind_some] at h
+      exact getPath_wf p x w (lookup_wf_val es k x (by simpa [Val.WF] using hv) hl) h
+
+/-- the value an `UpdateContext` writes is well-formed when its configuration and the context are -/
+theorem ucCompute_wf (uc : UC) (ctx : Entries) (u : Val) (hctx : EntriesWF ctx)
+    (hs : ∀ v, uc.upd = .simple v → v.WF) (hd : ∀ dv, uc.default = some dv → dv.WF)
+    (h : ucCompute uc ctx = .ok (.update u)) : u.WF := by
+  unfold ucCompute at h
+  split at h
+  · rename_i v hv; simp at h; subst h; exact hs v hv
+  · rename_i key hk
+    have hnk : normKeys (.str key) = .ok ((((splitDots key).filter (· ≠ ""))).map Leaf.str) := rfl
+    split at h
+    · rw [get_eq_path ctx _ _ none hnk] at h
+      cases hg : getPath (.dict ctx) ((splitDots key).filter (· ≠ "")) with
+      | none => rw [hg] at h; simp at h; split at h <;> simp at h
+      | some w =>
+        rw [hg] at h; simp at h; subst h
+        exact getPath_wf _ _ _ (by simpa [Val.WF] using hctx) hg
+    · rename_i dv hdv
+      rw [get_eq_path ctx _ _ (some dv) hnk] at h
+      cases hg : getPath (.dict ctx) ((splitDots key).filter (· ≠ "")) with
+      | none => rw [hg] at h; simp at h; subst h; exact hd dv hdv
+      | some w =>
+        rw [hg] at h; simp at h; subst h
+        exact getPath_wf _ _ _ (by simpa [Val.WF] using hctx) hg
+  · simp at h; subst h; trivial
+  · split at h
+    · simp at h
+    · simp at h; subst h; trivial
+    · split at h <;> simp at h
+  · simp at h
+
+/-- **elements preserve well-formed contexts** -/
+theorem update_keeps_wf {δ : Type} (uc : UC) (v v' : Item δ) (hctx : EntriesWF v.context)
+    (hs : ∀ x, uc.upd = .simple x → x.WF) (hd : ∀ dv, uc.default = some dv → dv.WF)
+    (h : ucCall uc v = .ok v') : EntriesWF v'.context := by
+  unfold ucCall at h
+  split at h
+  · simp at h
+  · simp at h; subst h; exact hctx
+  · rename_i u hu
+    simp at h; subst h
+    exact ucSet_wf _ u (ucCompute_wf uc _ u hctx hs hd hu) _ _ hctx
+
+theorem delete_keeps_wf {δ : Type} (p : List String) (v : Item δ) (hctx : EntriesWF v.context) :
+    EntriesWF (dcCall p v).context := by
+  cases v with
+  | bare x => trivial
+  | pair x c =>
+    simp only [dcCall]
+    split
+    · trivial
+    · exact delPath_wf p c hctx
+
+/-! ## 9. Neighbouring code: `update_recursively`, `SetContext` -/
+
+/-- `update_recursively(d, other)` key by key: a key of `other` holds a scalar → overwritten; a dictionary →
+merged into an existing dictionary, put in place of a scalar or an absent key; every other key of `d`
+keeps its item.  Arguments that are not dictionaries: `LenaTypeError`; an explicit `value` with a
+non-string `other`: `LenaValueError`. -/
+theorem update_recursively_spec (d o : Entries) (ho : EntriesWF o) :
+    updateRecursively (.dict d) (.val (.dict o)) none = .ok (.dict (updRec d o)) ∧
+    (∀ k, lookup (updRec d o) k =
+      match lookup o k with
+      | none => lookup d k
+      | some v => some (updItem (lookup d k) v)) ∧
+    (∀ a v, updateRecursively (.leaf a) (.val v) none = .error .lenaTypeError) ∧
+    (∀ a, updateRecursively (.dict d) (.val (.leaf a)) none = .error .lenaTypeError) ∧
+    (∀ v x, updateRecursively (.dict d) (.val v) (some x) = .error .lenaValueError) := by
+  refine ⟨rfl, lookup_updRec o ho d, ?_, ?_, ?_⟩
+  · intro a v; cases v <;> rfl
+  · intro a; rfl
+  · intro v x; rfl
+
+/-- `SetContext(key, value)` with a plain value: the static context it reports after `_set_context(c)` is
+`c` with `value` assigned at the key path (and `c` itself is not changed: the model's `setContext`
+returns only the new element) -/
+theorem set_context_plain (p : List String) (hne : p ≠ []) (hp : WFPath p) (v : Val) (hv : NotTemplate v) (c : Entries) :
+    ∃ s, setCtxInit (joinDots p) v = .ok s ∧
+      s.getContext = .ok (.dict (ucSet true [] p v)) ∧
+      (s.setContext (.dict c)).2 = none ∧
+      (s.setContext (.dict c)).1.getContext = .ok (.dict (ucSet true c p v)) := by
+  have h0 := fuw_plain p hne hp v hv []
+  have hc := fuw_plain p hne hp v hv c
+  refine ⟨⟨joinDots p, v, some (.dict (ucSet true [] p v))⟩, ?_, rfl, ?_, ?_⟩
+  · simp [setCtxInit, SetCtx.setContext, h0]
+  · simp [SetCtx.setContext, hc]
+  · simp [SetCtx.setContext, hc, SetCtx.getContext]
+
+/-- a template whose field is missing in the empty context: the construction succeeds (the
+`LenaKeyError` is stored), `_get_context` raises it until a `_set_context` succeeds -/
+theorem set_context_missing (key s : String) (fc : Fmt) (hs : s.toList.contains '{' = true)
+    (hi : formatInit (some s) = .ok fc) (hk : formatCall fc (.dict []) = .error .lenaKeyError) :
+    ∃ st, setCtxInit key (.leaf (.str s)) = .ok st ∧ st.getContext = .error .lenaKeyError := by
+  refine ⟨⟨key, .leaf (.str s), none⟩, ?_, rfl⟩
+  have : formatUpdateWith key (.leaf (.str s)) (.dict []) = .error .lenaKeyError := by
+    unfold formatUpdateWith formatValue
+    simp only [hs, hi, hk, if_true]
+  simp [setCtxInit, SetCtx.setContext, this]
+
+/-! ## Non-vacuity: concrete instances of the hypotheses used above -/
+
+example : EntriesWF [("a", .dict [("b", .leaf (.int 7)), ("c", .leaf (.int 1))]), ("b", .leaf .none)] := by
+  simp [EntriesWF, Val.WF, lookup]
+
+-- `update_exact`: UpdateContext("output.plot", {"scatter": True}) on a value without context
+example : ucCompute ⟨["output", "plot"], .simple (.dict [("scatter", .leaf (.bool true))]), none, false, false, true⟩ [] =
+    .ok (.update (.dict [("scatter", .leaf (.bool true))])) := rfl
+example : ucCall (δ := Nat) ⟨["output", "plot"], .simple (.dict [("scatter", .leaf (.bool true))]), none, false, false, true⟩
+    (.bare 0) = .ok (.pair 0 [("output", .dict [("plot", .dict [("scatter", .leaf (.bool true))])])]) := by decide
+
+-- `missing_key_outcomes`: the three configurations on a context without the key
+example : joinDots ["a", "b"] = "a.b" := by decide
+example : ucCall (δ := Nat) ⟨["o"], .ctxValue "a.b", some (.leaf (.int 0)), false, false, true⟩ (.pair 1 [("a", .leaf (.int 5))]) =
+    .ok (.pair 1 [("a", .leaf (.int 5)), ("o", .leaf (.int 0))]) := by decide
+example : ucCall (δ := Nat) ⟨["o"], .ctxValue "a.b", none, true, false, true⟩ (.pair 1 [("a", .leaf (.int 5))]) =
+    .ok (.pair 1 [("a", .leaf (.int 5))]) := by decide
+example : ucCall (δ := Nat) ⟨["o"], .ctxValue "a.b", none, false, true, true⟩ (.pair 1 [("a", .leaf (.int 5))]) =
+    .error .lenaKeyError := by decide
+
+-- `format_exact`: the fields of "{{x.y}}_{{z}}" in {"x": {"y": 10}, "z": 1}
+example : fieldsPresent [("x", .dict [("y", .leaf (.int 10))]), ("z", .leaf (.int 1))]
+    [.field ["x", "y"], .lit "_", .field ["z"]] = true := by decide
+example : renderSpec [("x", .dict [("y", .leaf (.int 10))]), ("z", .leaf (.int 1))]
+    [.field ["x", "y"], .lit "_", .field ["z"]] = "10_1" := by decide
+example : (formatInit (some "{{x.y}}_{{z}}")).toOption.map
+    (fun f => formatCall f (.dict [("x", .dict [("y", .leaf (.int 10))]), ("z", .leaf (.int 1))])) =
+    some (.ok "10_1") := by decide
+
+-- `to_string_canonical`: two equal dictionaries in different key order, two different ones
+example : DictEq (.dict [("a", .leaf (.int 1)), ("b", .dict [("c", .leaf .none), ("d", .leaf (.str "x"))])])
+    (.dict [("b", .dict [("d", .leaf (.str "x")), ("c", .leaf .none)]), ("a", .leaf (.int 1))]) :=
+  (pyEq_iff _ _ (by simp [EntriesWF, Val.WF, lookup])).1 (by decide)
+example : ¬ DictEq (.dict [("a", .leaf (.int 1))]) (.dict [("a", .leaf (.bool true))]) :=
+  fun h => absurd ((pyEq_iff _ _ (by simp [EntriesWF, Val.WF, lookup])).2 h) (by decide)
 
 end Lena.C08
